@@ -41,12 +41,13 @@ func (k Keeper) MintAndAllocate(ctx sdk.Context) error {
 	// totalBonded * rewardCoefficient * ((currentBlockTS - prevBlockTS) / yearInMillis)
 	blockMint := totalBonded.Mul(rewardCoefficient).Mul((currentBlockTS.Sub(prevBlockTS)).Quo(yearInMillis))
 
-	bankTotalSupply, _ := sdk.NewDecFromStr(k.bankKeeper.GetSupply(ctx, params.MintDenom).Amount.String())
-	maxSupply, _ := sdk.NewDecFromStr(k.GetMaxSupply(ctx).Amount.String())
+	// Integer arithmetic: a Coin amount may be as large as 2^256-1, which an 18-decimal Dec cannot hold.
+	// remaining is an integer, so blockMint > remaining <=> ceil(blockMint) > remaining.
+	remaining := k.GetMaxSupply(ctx).Amount.Sub(k.bankKeeper.GetSupply(ctx, params.MintDenom).Amount)
 
 	// Ensure minting does not exceed the maximum supply
-	if bankTotalSupply.Add(blockMint).GT(maxSupply) {
-		blockMint = maxSupply.Sub(bankTotalSupply)
+	if blockMint.Ceil().RoundInt().GT(remaining) {
+		blockMint = sdk.NewDecFromInt(remaining)
 		params.EnableCoinomics = false
 		k.SetParams(ctx, params)
 	}
